@@ -21,6 +21,9 @@ func tuple(res []T) T {
 func (vc *VC) call(st *State, fr *Frame, x *ssa.Call, k func(*State, *Frame)) {
 	cont := func(st *State, fr *Frame, r T) {
 		fr.vals[x] = r
+		if ci, ok := vc.closureByRef[r.S]; ok && r.S != "" {
+			fr.closures[x] = ci
+		}
 		k(st, fr)
 	}
 	c := x.Call
@@ -80,10 +83,6 @@ func (vc *VC) call(st *State, fr *Frame, x *ssa.Call, k func(*State, *Frame)) {
 		return
 	}
 	// function value
-	if ci, ok := fr.closures[c.Value]; ok {
-		vc.inline(st, fr, ci.fn, args, ci.bindings, cont)
-		return
-	}
 	if fr.top && st.ctx != nil && st.ctx.blk != nil {
 		for i, ac := range st.ctx.blk.AtClosure {
 			if ac.Callee != "dyn" {
@@ -93,6 +92,7 @@ func (vc *VC) call(st *State, fr *Frame, x *ssa.Call, k func(*State, *Frame)) {
 			for k, a := range args {
 				env.bind(fmt.Sprintf("arg%d", k), a, c.Args[k].Type())
 			}
+			env.bind("fnval", vc.val(st, fr, c.Value), c.Value.Type())
 			t, err := vc.evalClause(st.ctx, st, st.ctx.old, ac.Clause.Text, env)
 			if err != nil {
 				if strings.Contains(err.Error(), "unknown name") {
@@ -108,6 +108,10 @@ func (vc *VC) call(st *State, fr *Frame, x *ssa.Call, k func(*State, *Frame)) {
 			cl := ac.Clause
 			vc.oblige(st, "at-call.dyn", labelOr(cl.Label, i+1), t.S, &cl, site)
 		}
+	}
+	if ci, ok := fr.closures[c.Value]; ok {
+		vc.inline(st, fr, ci.fn, args, ci.bindings, cont)
+		return
 	}
 	fv := vc.val(st, fr, c.Value)
 	vc.check(st, vc.nonnil(st, fv.S), "nil", site)
@@ -382,6 +386,37 @@ func (vc *VC) dynCall(st *State, fr *Frame, x *ssa.Call, fv T, args []T, cont fu
 				}
 				vc.assume(st, t.S)
 			}
+		}
+	}
+	// `at call dyn: assume E` - a stated assumption about what the function
+	// value called here does (old(...) = the state just before this call)
+	if fr.top && st.ctx != nil && st.ctx.blk != nil {
+		for _, ac := range st.ctx.blk.AtClosure {
+			if ac.Callee != "dyn-assume" {
+				continue
+			}
+			env := vc.localsEnv(st, fr)
+			for k, a := range args {
+				env.bind(fmt.Sprintf("arg%d", k), a, x.Call.Args[k].Type())
+			}
+			ec := &evalCtx{vc: vc, now: st, old: preCall, pkg: vc.fn.Pkg.Pkg, fn: vc.fn}
+			base := vc.baseEnv(st.ctx)
+			env.parent = base
+			ec.env = env
+			t, err := ec.evalText(ac.Clause.Text)
+			if err != nil {
+				if strings.Contains(err.Error(), "unknown name") {
+					continue
+				}
+				vc.fail(fmt.Errorf("%s:%d: %v", ac.Clause.File, ac.Clause.Line, err))
+				return
+			}
+			if vc.atUsed == nil {
+				vc.atUsed = map[string]int{}
+			}
+			vc.atUsed[ac.Clause.Text]++
+			vc.note("assumed about the function values called dynamically in " + vc.fnName + ": " + ac.Clause.Text)
+			vc.assume(st, t.S)
 		}
 	}
 	cont(st, fr, r)
@@ -752,6 +787,43 @@ func (vc *VC) applyContract(st *State, fr *Frame, blk *Block, callee *ssa.Functi
 	}
 	if blk.Fresh && res.Sort == SInt {
 		vc.assume(st, and(app(">", app("root", res.S), pre.mark), not(eq(res.S, "0"))))
+	}
+	if blk.RetClosure != "" && res.Sort == SInt {
+		// the result is a known function literal with known captured values
+		name := blk.RetClosure
+		if !strings.Contains(strings.SplitN(name, "(", 2)[0], ".") || strings.HasPrefix(name, "(") {
+			name = shortPkg(pkg.Path()) + "." + name
+		}
+		cf := vc.P.Funcs[name]
+		if cf == nil {
+			vc.fail(fmt.Errorf("%s:%d: returns closure %s: no such function literal", blk.File, blk.Line, name))
+			return
+		}
+		ci := &closureInfo{fn: cf}
+		for _, fv := range cf.FreeVars {
+			text, ok := blk.RetBinds[fv.Name()]
+			if !ok {
+				vc.fail(fmt.Errorf("%s:%d: returns closure %s: no value given for captured variable %s", blk.File, blk.Line, name, fv.Name()))
+				return
+			}
+			v, err := vc.evalIn(pkg, env2, st, pre, text)
+			if err != nil {
+				vc.fail(fmt.Errorf("%s:%d: %v", blk.File, blk.Line, err))
+				return
+			}
+			if pt, isPtr := fv.Type().Underlying().(*types.Pointer); isPtr {
+				cell := vc.alloc(st, "a")
+				vc.storeAt(st, cell, pt.Elem(), v)
+				ci.bindings = append(ci.bindings, cell)
+			} else {
+				ci.bindings = append(ci.bindings, v)
+			}
+		}
+		vc.assume(st, and(app(">", app("root", res.S), pre.mark), not(eq(res.S, "0"))))
+		if vc.closureByRef == nil {
+			vc.closureByRef = map[string]*closureInfo{}
+		}
+		vc.closureByRef[res.S] = ci
 	}
 	for _, c := range blk.Ensures {
 		t, err := vc.evalIn(pkg, env2, st, pre, c.Text)
